@@ -35,6 +35,10 @@ def programs(tier):
     extra.append(("deadline_cancelled_then_left", [
         ["scope", "S1", {"deadline": 4}, [WAIT, CP]], ["probe"],
         ["scope", "S2", {"kind": "move_on_after", "deadline": 2}, [["sleep", 1]]], ["probe"], CP]))
+    extra.append(("cancelled_before_entry_with_deadline", [
+        ["prescope", "P1", {"deadline": 50}, [CP]], ["probe"], CP,
+        ["prescope", "P2", {"deadline": 50, "shield": True}, [CP]], ["probe"],
+        ["scope", "S1", {}, [["prescope", "P3", {"deadline": 70}, [WAIT]], CP]], ["probe"], CP]))
     # cleanup behind a shield after a *native* cancellation: the native request count the task
     # entered the scopes with must survive them (a failing child cancels the group's scope in
     # the very cycle in which the host's wait completes)
